@@ -355,9 +355,11 @@ what the precedence −1 watchers of all nodes do when parameter `q` changes -/
 def invalidate (w : World Val Err Op) (q : PId) : World Val Err Op :=
   { w with nodes := w.nodes.zipIdx.map fun (nd, i) => invNode w q nd i }
 
-/-- the precedence-0 watchers of parameter `q`, one entry per registration -/
+/-- the precedence-0 watchers of parameter `q`, in registration order.
+src: depends.py depends — the function form registers `list(dict.fromkeys(names))` per owner, so a
+consumer that depends on `q` several times is still registered (and called) once -/
 def consumersOf (w : World Val Err Op) (q : PId) : List (Consumer Val) :=
-  w.consumers.flatMap fun c => List.replicate (c.deps.count q) c
+  w.consumers.filter fun c => c.deps.contains q
 
 /-- run the precedence-0 watchers in order; the first exception aborts the dispatch -/
 def runConsumers (S : Sem Val Err Op) (fuel : Nat) :
